@@ -60,8 +60,9 @@ def canon(state, fields=None):
 
 
 class World:
-    def __init__(self, atoms=None, text_of=None):
-        Node.store.clear()        # harness-side isolation of the process-wide registry
+    def __init__(self, atoms=None, text_of=None, clear=True):
+        if clear:
+            Node.store.clear()    # harness-side isolation of the process-wide registry
         self.nodes = []           # abstract id i <-> self.nodes[i-1]
         self.idx = {}             # id(node object) -> abstract id
         self.atoms = atoms or Atoms()
